@@ -88,7 +88,8 @@ func (w *Where) buildIdxSel(index []string, mode byte, perCol map[string][]span)
 	// Fast path: all prefix columns have single-value spans
 	if prefixLen, org, ok := allSingleValuePrefix(index, encode, perCol); ok {
 		isel.prefixLen = prefixLen
-		lookup := prefixLen == len(index)
+		lookup := prefixLen == len(index) &&
+			!emptyUnique(mode, perCol, index[:prefixLen])
 		if lookup {
 			isel.prefixRanges = []pointRange{{Org: org}}
 		} else {
@@ -101,7 +102,7 @@ func (w *Where) buildIdxSel(index []string, mode byte, perCol map[string][]span)
 			end := enc.String()
 			isel.prefixRanges = []pointRange{{Org: org, End: end}}
 		}
-		if prefixLen == len(index) {
+		if lookup {
 			if isel.prefixRanges[0].isPoint() {
 				isel.singleton = true
 				return &isel
@@ -115,7 +116,8 @@ func (w *Where) buildIdxSel(index []string, mode byte, perCol map[string][]span)
 		for i := range comp {
 			c := &comp[i]
 			if c.isPoint() {
-				lookup := len(exploded[i]) == len(index)
+				lookup := len(exploded[i]) == len(index) &&
+					!emptySpans(mode, exploded[i])
 				if !lookup {
 					assert.That(encode)
 					c.End = c.Org + ixkey.Sep + ixkey.Max
@@ -175,6 +177,35 @@ func allSingleValuePrefix(index []string, encode bool, perCol map[string][]span)
 		org = enc.String()
 	}
 	return prefixLen, org, true
+}
+
+// emptyUnique returns true for a unique index where all the values are empty.
+// A unique index allows multiple empty values,
+// their entries have the key appended (ixkey.Spec Fields2)
+// so they must be read as a range, not looked up.
+func emptyUnique(mode byte, perCol map[string][]span, cols []string) bool {
+	if mode != 'u' {
+		return false
+	}
+	for _, col := range cols {
+		if perCol[col][0].org.val != "" {
+			return false
+		}
+	}
+	return true
+}
+
+// emptySpans is emptyUnique for a list of single value spans
+func emptySpans(mode byte, spans []span) bool {
+	if mode != 'u' {
+		return false
+	}
+	for _, sp := range spans {
+		if sp.org.val != "" {
+			return false
+		}
+	}
+	return true
 }
 
 // recalcIdxSel rebuilds the idxSel for the current index using merged
